@@ -41,6 +41,10 @@ def _true(call, name):
 
 _S = "svg"
 VARIANTS = [
+    Variant("processing instructions removed only after simplify (a gradient that takes its stops from a template is no longer childless)",
+            [Edit(_S, "SVG.topicosvg", "        self.remove_processing_instructions(inplace=True)\n", ""),
+             Edit(_S, "SVG.topicosvg", "        self.simplify(inplace=True)\n", "        self.simplify(inplace=True)\n        self.remove_processing_instructions(inplace=True)\n")],
+            [("R-", "topicosvg")], allow_analysis_error=True),
     Variant("comments kept by the parser", [Edit(_S, "SVG.fromstring", "remove_comments=True", "remove_comments=False")], [("R-SITE.parser-flags", "fromstring")]),
     Variant("title/desc removed after simplify", [Edit(_S, "SVG.topicosvg", "        self.remove_title_meta_desc(inplace=True)\n", ""),
                                                   Edit(_S, "SVG.topicosvg", "        self.simplify(inplace=True)\n", "        self.simplify(inplace=True)\n        self.remove_title_meta_desc(inplace=True)\n")],
